@@ -168,12 +168,34 @@ impl Arithmetic for i128 {
     }
 }
 
+/// Asset arithmetic works on canonical bundles, which only hold numbers: an asset list whose
+/// amount is constant but not a number cannot take part in it.
+fn expect_numeric_amounts(assets: &[AssetExpr], op: &str) -> Result<(), Error> {
+    match assets
+        .iter()
+        .find(|x| !matches!(x.amount, Expression::Number(_)))
+    {
+        Some(x) => Err(Error::InvalidUnaryOp(
+            op.to_string(),
+            format!("asset amount {:?}", x.amount),
+        )),
+        None => Ok(()),
+    }
+}
+
 impl Arithmetic for Expression {
     fn add(self, other: Expression) -> Result<Expression, Error> {
+        if let Expression::Assets(x) = &other {
+            expect_numeric_amounts(x, "add")?;
+        }
+
         match self {
             Expression::None => Ok(other),
             Expression::Number(x) => Arithmetic::add(x, other),
-            Expression::Assets(x) => Arithmetic::add(x, other),
+            Expression::Assets(x) => {
+                expect_numeric_amounts(&x, "add")?;
+                Arithmetic::add(x, other)
+            }
             x => Err(Error::InvalidBinaryOp(
                 "add".to_string(),
                 format!("{x:?}"),
@@ -183,10 +205,17 @@ impl Arithmetic for Expression {
     }
 
     fn sub(self, other: Expression) -> Result<Expression, Error> {
+        if let Expression::Assets(x) = &other {
+            expect_numeric_amounts(x, "sub")?;
+        }
+
         match self {
             Expression::None => Ok(other),
             Expression::Number(x) => Arithmetic::sub(x, other),
-            Expression::Assets(x) => Arithmetic::sub(x, other),
+            Expression::Assets(x) => {
+                expect_numeric_amounts(&x, "sub")?;
+                Arithmetic::sub(x, other)
+            }
             x => Err(Error::InvalidBinaryOp(
                 "sub".to_string(),
                 format!("{x:?}"),
@@ -199,7 +228,10 @@ impl Arithmetic for Expression {
         match self {
             Expression::None => Ok(Expression::None),
             Expression::Number(x) => Arithmetic::neg(x),
-            Expression::Assets(x) => Arithmetic::neg(x),
+            Expression::Assets(x) => {
+                expect_numeric_amounts(&x, "neg")?;
+                Arithmetic::neg(x)
+            }
             x => Err(Error::InvalidUnaryOp("neg".to_string(), format!("{x:?}"))),
         }
     }
